@@ -18,6 +18,7 @@ from ..absint import Interp
 from ..poly import Poly, le, lt, eq
 from ..terms import Terms, mk_cmp, is_none, plain, split_cond, \
     alternatives, match, V, ANY, show, lookup, subterms, stores, as_lambda, \
+    one_level, reify, \
     method_calls
 from ..util import calls_in, qual, formals, returns_of, raises_of, \
     raise_name, has_fact, bind, parse_expr
@@ -97,39 +98,67 @@ def r1_algebra(program, rep):
     # _Merge.__new__
     fn = program.get(OC + ":_Merge.__new__")
     inst = qual(fn)
-    fl = Flow(fn)
-    env = {}
-    acc = {}
-    for d in fl.defs:
-        if d.mode == "assign" and isinstance(d.value, (ast.BinOp,
-                                                       ast.UnaryOp)):
-            env[d.var] = d.value
-        if d.mode == "aug":
-            acc[d.var] = (type(d.value.op).__name__, unparse(d.value.value))
-        if d.mode == "assign" and isinstance(d.value, ast.Constant) and \
-                isinstance(d.value.value, int):
-            acc.setdefault("init:" + d.var, d.value.value)
-    want_acc = {"any_ones": ("BitOr", "entry.key", 0),
-                "all_ones": ("BitAnd", "entry.key", 0xffffffff),
-                "all_selected": ("BitAnd", "entry.mask", 0xffffffff)}
-    for v, (op, src, init) in want_acc.items():
-        rep.check(acc.get(v) == (op, src) and acc.get("init:" + v) == init,
-                  "C04-R1", inst, "%s accumulates %s of %s from %s" % (
-                      v, "OR" if op == "BitOr" else "AND", src, hex(init)),
-                  construct="merge accumulator %s %s" % (v, acc.get(v)),
-                  node=fn)
+    # the accumulators are recognised by what they accumulate (whatever they
+    # are called, `x |= e` or `x = x | e`), the merged key / mask are then
+    # evaluated as bit-parallel functions of them
+    T_ = Terms(fn)
+    sup = [c for c in ast.walk(fn) if isinstance(c, ast.Call) and
+           isinstance(c.func, ast.Attribute) and c.func.attr == "__new__"
+           and len(c.args) >= 5]
+    if len(sup) != 1:
+        raise AnalysisError("_Merge.__new__: the call creating the tuple")
+    sn = T_.cfg.node_containing(sup[0])
+    KEYT, MASKT = T_.term(sup[0].args[3], sn), T_.term(sup[0].args[4], sn)
+    roles = {}
+
+    def role_of(mu):
+        alts = [plain(x) for x in one_level(mu)]
+        init = [x for x in alts if x[0] == "const"]
+        upd = [x for x in alts if x[0] == "binop" and x[1] in ("BitOr",
+                                                                 "BitAnd")]
+        if len(init) != 1 or len(upd) != 1 or len(alts) != 2:
+            return None
+        u = upd[0]
+        other = [z for z in (u[2], u[3]) if z != plain(mu)]
+        if len(other) != 1 or other[0][0] != "attr" or \
+                other[0][2] not in ("key", "mask"):
+            return None
+        ent = other[0][1]
+        if not (ent[0] == "item" and ent[1] == _P(formals(fn)[1]) and
+                ent[2][0] == "elem"):
+            return None
+        return {("BitOr", "key", 0): "any_ones",
+                ("BitAnd", "key", 0xffffffff): "all_ones",
+                ("BitAnd", "mask", 0xffffffff): "all_selected"}.get(
+                    (u[1], other[0][2], init[0][1]))
+    for t in (KEYT, MASKT):
+        for st_ in subterms(t):
+            if st_[0] == "mu" and st_[1] not in roles:
+                roles[st_[1]] = role_of(st_)
+    if not roles or None in roles.values():
+        raise AnalysisError("_Merge.__new__: the merged key / mask are not "
+                            "computed from accumulators of the members' "
+                            "keys and masks in the form analysed")
+    want_roles = {"any_ones": "OR of the members' keys from 0",
+                  "all_ones": "AND of the members' keys from 0xffffffff",
+                  "all_selected": "AND of the members' masks from "
+                                  "0xffffffff"}
+    for r_, text in sorted(want_roles.items()):
+        rep.check(r_ in roles.values(), "C04-R1", inst, "an accumulator "
+                  "holds the %s" % text, construct="merge accumulator %s" %
+                  r_, node=fn)
     ins = ["all_selected", "any_ones", "all_ones"]
-    # the call's key / mask arguments
-    sup = [c for c in calls_in(fn, "__new__")]
-    km = None
-    for c in sup:
-        if len(c.args) >= 5:
-            km = (c.args[3], c.args[4])
-    if km is None:
-        raise AnalysisError("_Merge.__new__: key/mask positions")
-    env2 = {k: v for k, v in env.items() if k not in ins}
-    tk = _tt(km[0], ins, env2)
-    tm = _tt(km[1], ins, env2)
+
+    def named(t):
+        if not isinstance(t, tuple):
+            return t
+        if t and t[0] == "mu":
+            return ("param", roles.get(t[1], "?"))
+        if t and t[0] == "const":
+            return t
+        return tuple(named(x) for x in t)
+    tk = _tt(_wp(reify(plain(named(KEYT)))), ins, {})
+    tm = _tt(_wp(reify(plain(named(MASKT)))), ins, {})
     bad = []
     for bits in tm:
         sel, anyo, allo = bits
@@ -144,11 +173,19 @@ def r1_algebra(program, rep):
               construct="merge key/mask truth table", node=fn,
               fail="the merged key/mask is wrong for (all_selected, "
                    "any_ones, all_ones) bit patterns %s" % bad[:3])
-    srcs = [c for c in calls_in(fn, "update")
-            if chain(call_name(c)[1]) == "sources"]
-    rep.check(len(srcs) == 1 and unparse(srcs[0].args[0]) == "entry.sources",
-              "C04-R1", inst, "the merged entry's sources are the union of "
-              "its members' sources", construct="merge sources", node=fn)
+    # the sources handed to the tuple: a fresh set updated with every
+    # member's sources
+    SRC = T_.term(sup[0].args[-1], sn) if len(sup[0].args) >= 8 else None
+    ups = [x for x in method_calls(T_, "update") if x[2] == SRC]
+    oksrc = SRC is not None and SRC[0] == "new" and len(ups) == 1
+    if oksrc:
+        a_ = plain(ups[0][3][0]) if len(ups[0][3]) == 1 else ("?",)
+        oksrc = a_[0] == "attr" and a_[2] == "sources" and \
+            a_[1][0] == "item" and a_[1][1] == _P(formals(fn)[1]) and \
+            a_[1][2][0] == "elem" and not T_.all_facts(ups[0][0])
+    rep.check(oksrc, "C04-R1", inst, "the merged entry's sources are the "
+              "union of its members' sources", construct="merge sources",
+              node=fn)
     # Xs = ~key & ~mask in the three places
     for spec, inputs, names, text in (
             (OC + ":_get_generality", None, ("xs",), "~key & ~mask"),
